@@ -408,6 +408,12 @@ def _is_sharing_guard(ctx, fi) -> bool:
             yield from positive_tests(t.operand, has_else)
         elif isinstance(t, ast.Call):
             yield t
+        elif isinstance(t, ast.Name):
+            # a test computed once into a local (is_string = isinstance(item, (bytes, str))) and used as a branch condition
+            defs = [a_ for a_ in ast.walk(node) if isinstance(a_, ast.Assign) and len(a_.targets) == 1 and isinstance(a_.targets[0], ast.Name)
+                    and a_.targets[0].id == t.id]
+            if len(defs) == 1:
+                yield from positive_tests(defs[0].value, has_else)
     branch_tests = [c for n in ast.walk(node) if isinstance(n, ast.If) for c in positive_tests(n.test, bool(n.orelse))]
     for n in branch_tests:
         if isinstance(n, ast.Call) and isinstance(n.func, ast.Name) and n.func.id == "isinstance" and len(n.args) == 2:
